@@ -23,7 +23,7 @@ correspondence tie of the hand model):
   expressions e
       integer literals, locals / parameters, ptr[k] and *ptr (decoders only),
       |  &  <<  >>  with a literal shift count, parentheses, and the casts
-      std::byte <-> uint8_t, uint8_t -> int (promotion), int -> std::byte,
+      std::byte <-> uint8_t, uint8_t -> int (promotion), int / unsigned -> std::byte,
       int64_t -> int32_t, int32_t <-> uint32_t, uint32_t -> int64_t, int32_t -> int64_t.
   decode_extra / encode_extra: recognised as a whole by the canonical shape of
       their typed AST (resize + guarded memcpy of the rest); any change -> unsupported.
@@ -92,6 +92,7 @@ BYTES = "List UInt8"
 # (source, target) -> (PrimOps name, kind)   kind: zext | trunc | same | sext
 CASTS = {("byte", "u8"): ("u8_of_byte", "same"), ("u8", "byte"): ("byte_of_u8", "same"),
          ("u8", "i32"): ("i32_of_u8", "zext"), ("i32", "byte"): ("byte_of_i32", "trunc"),
+         ("u32", "byte"): ("byte_of_u32", "trunc"),
          ("i64", "i32"): ("i32_of_i64", "trunc"), ("i32", "u32"): ("u32_of_i32", "same"),
          ("u32", "i32"): ("i32_of_u32", "same"), ("u32", "i64"): ("i64_of_u32", "zext"),
          ("i32", "i64"): ("i64_of_i32", "sext")}
